@@ -388,10 +388,27 @@ class Program:
 _VALUE_PRESERVING_CASTS = ('LValueToRValue', 'NoOp', 'ConstructorConversion', 'UserDefinedConversion')
 
 
+def _local_init(fn, d):
+    """initialiser expression id of a local that is declared once and never re-assigned / incremented, else None"""
+    inits = []
+    for n in fn.all_nodes():
+        k = n.get('k')
+        if k == 'decl':
+            for v in n['vars']:
+                if v['d'] == d and isinstance(v.get('init'), int):
+                    inits.append(v['init'])
+        elif k == 'assign' or (k == 'unop' and n.get('op') in ('++', '--')):
+            l = fn.sn(n['lhs'] if k == 'assign' else n['sub'])
+            if l is not None and l.get('k') == 'var' and l.get('d') == d:
+                return None
+    return inits[0] if len(inits) == 1 else None
+
+
 class _Compiler:
     def __init__(self, fb, fn, atoms, as_callee, depth, cache, same_this=False):
         self.fb, self.fn, self.atoms, self.as_callee, self.depth, self.cache = fb, fn, atoms, as_callee, depth, cache
         self.same_this = same_this      # callee invoked on the caller's own object: its fields are the caller's fields
+        self.inline_locals = False      # compile_expression: a never re-assigned local stands for its initialiser
         self.p = Program(fn)
         self.param_by_d = {}
 
@@ -480,6 +497,11 @@ class _Compiler:
                     return ('bsym', name)
                 self.fail(nid, 'object parameter used other than through a declared atom')
             if vk == 'local':
+                if self.inline_locals:
+                    init = _local_init(fn, n['d'])
+                    if init is None:
+                        self.fail(nid, 'local that is re-assigned or has no initialiser, in an isolated expression')
+                    return self.expr(init)
                 return ('load', ('local', n['d']), 'b' if _plain_type(t) == 'bool' else 'i')
             self.fail(nid, 'reference to %s %s without a constant value' % (vk, n.get('q', n.get('name'))))
         if k == 'member':
@@ -778,8 +800,10 @@ def compile_function(fb, fn, atoms=None):
 
 def compile_expression(fb, fn, nid, atoms=None):
     """Same proof obligation for ONE expression inside `fn` (e.g. a tuple component, a guard condition): the result is a
-    Program that returns the value of that expression; its inputs are fn's parameters / the atoms it mentions."""
+    Program that returns the value of that expression; its inputs are fn's parameters / the atoms it mentions.  Named locals
+    that are never re-assigned are read as their initialisers (`const auto n = size(); if (n < 2)` is `size() < 2`)."""
     c = _Compiler(fb, fn, atoms, False, 0, {})
+    c.inline_locals = True
     p = c.p
     for i, prm in enumerate(fn.params):
         name = prm['name'] or 'arg%d' % i
